@@ -56,13 +56,15 @@ def gen_weights(rng, D):
     if u > 0.92:
         j = int(rng.integers(D))
         w[j] = -float(np.round(rng.random() * 2 + 0.1, 3))   # weights are importances by convention, not by contract
+    if 0.5 < u < 0.58:
+        return [int(x) for x in rng.integers(0, 4, size=D)]    # whole-number weights written as Python ints (an integer-typed array)
     return w.tolist()
 
 
 def gen_loss_desc(rng, kind, D, N):
     d = {"kind": kind, "weights": gen_weights(rng, D), "filters": gen_filters(rng, D)}
     if kind == "minkowski":
-        d["p"] = float(rng.choice([1, 1.5, 2, 3])) if rng.random() < 0.8 else 2
+        d["p"] = float(rng.choice([1, 1.5, 2, 3, np.inf])) if rng.random() < 0.8 else 2   # inf: Chebyshev distance
     elif kind == "msm":
         d["calc"] = str(rng.choice(["default", "default", "mean_std", "quartiles", "minmaxmean", "head_view"]))
         nm = 18 if d["calc"] == "default" else CALCS[d["calc"]][1]
@@ -177,7 +179,7 @@ def build_loss(d):
     from black_it.loss_functions.minkowski import MinkowskiLoss
     from black_it.loss_functions.msm import MethodOfMomentsLoss
 
-    w = None if d.get("weights") is None else np.array(d["weights"], dtype=float)
+    w = None if d.get("weights") is None else (np.array(d["weights"]) if all(isinstance(x, int) for x in d["weights"]) else np.array(d["weights"], dtype=float))
     fl = None if d.get("filters") is None else [build_filter(s) for s in d["filters"]]
     k = d["kind"]
     if d.get("defaults"):
